@@ -8,27 +8,27 @@ hooks_commits = subprocess.run(["git","-C","/repo","log","--format=%H","--grep=^
 
 checks_all = {
  "C02": dict(
-  level_text="Seeded simulation of the replacement hand-off: the simulator owns the token stream (unique ids) and the Replace constructor (recording sink with injected partial/none/reverse/retaining consumption); conservation / exactly-once / order is checked over the recorded history against an independent splice of find_numbers, plus the text clause (tokenize round-trip, replace_numbers_in_text == own splice) as the fault-free configuration. Sampling over streams, sink behaviours, languages and thresholds; a clean batch is evidence, not proof.",
+  level_text="Seeded simulation of the replacement hand-off: the simulator owns the token stream (unique ids) and the Replace constructor (recording sink with injected partial/none/reverse/retaining consumption); conservation / exactly-once / order is checked over the recorded history against an independent splice of find_numbers (oracles S0-S6, incl. constructors that return a received token or make nested library calls, and an earlier call that died inside a caller-supplied interpreter), plus the text clause (tokenize round-trip, replace_numbers_in_text == own splice) as the fault-free configuration. Sampling over streams, sink behaviours, languages and thresholds; a clean batch is evidence, not proof.",
   note="Trusts the harness splice (~60 lines) and find_numbers as the definition of 'reported occurrences' (the property itself defines rewriting relative to them). Text clause has no fault dimension and is labelled so in evidence.",
   technique="deterministic simulation: seeded token streams + fault-injecting Replace sink, conservation/exactly-once oracle over recorded hand-off history, minimised replay files",
   design="6.1"),
  "C10": dict(
-  level_text="Seeded simulation of a session cut: the rewriting pipeline is stopped after A+S (strong separator), all in-memory state is lost, and a fresh call continues with B; the oracle is restart transparency rewrite(A S B) == rewrite(A) S rewrite(B) at every sampled threshold, plus the punctuation clause. Sampling; weakest fit of the family (metamorphic relation on a pure function whose failure mode is leaked per-call state).",
+  level_text="Seeded simulation of a session cut: the rewriting pipeline is stopped after A+S (strong separator), all in-memory state is lost, and a fresh call continues with B; the oracle is restart transparency rewrite(A S B) == rewrite(A) S rewrite(B) at every sampled threshold (R1), after an aborted / crashed scan (R3) and after a complete earlier call on the same thread (R4), plus the punctuation clause (R2). Sampling; weakest fit of the family (metamorphic relation on a pure function whose failure mode is leaked per-call state).",
   note="Separator words are admitted per language only if the interpreter itself classifies them as non-number, non-linking, non-decimal-separator and not one of the French look-back triggers; trusts that filter and the pools.",
   technique="deterministic simulation: crash/restart (session cut) transparency at strong separators, seeded search with cuts biased to in-flight state, minimised replay files",
   design="6.2"),
  "C12": dict(
-  level_text="Seeded search over operation histories (1-40 steps, swarm weights, model-constructed refused operations as the injected fault) on the real DigitString, checked step by step against a small executable reference model and by model-independent snapshot invariants (failure atomicity, no digit lost, frozen refuses, no panic). Sampling, not proof.",
+  level_text="Seeded search over operation histories (1-40 steps, rare bursts of 70-300 and runs of 70 000 identical operations, digit groups up to 80 digits, builders born via new / Default / mem::take, swarm weights, model-constructed refused operations as the injected fault) on the real DigitString, checked step by step against a small executable reference model and by model-independent snapshot invariants (failure atomicity, no digit lost, frozen refuses, no panic). Sampling, not proof.",
   note="Trusts the positional reference model in sim/src/c12.rs; digit arguments are ASCII digits, positions <= 14, is_range_free called with start < end; error kinds not compared.",
   technique="deterministic simulation: seeded operation histories with injected refusals against an executable reference model, full-state snapshot failure-atomicity oracle, minimised replay files",
   design="4"),
  "C14": dict(
-  level_text="Seeded layers: (a) Send+Sync compile probe; (b) call histories (calls as data over every public entry point and the raw interpreter methods, incl. injected client crashes - panicking Token/Iterator/Replace/BasicAnnotate/LangInterpreter callbacks - and abandoned lazy iterators) on long-lived interpreters, every result compared with a reference table in which each call ran alone in a pristine process; the whole corpus once as one forward history, and once in reverse in another process; (c) schedule simulation: 2-4 real caller threads under the harness's own deterministic scheduler (one runs at a time; PRNG-chosen switches at every caller callback and library yield point; uniform / sticky / PCT policies; explicit trace in the replay file) with the same oracle; (d) Miri as a second deterministic scheduler with basic-block preemption and data-race detection (slice in quick, sweep in thorough); (e) fd 1/2 captured for the whole run. Sampling.",
-  note="The controlled scheduler switches only at callbacks and verif yield points (the library has no synchronisation of its own); interleavings inside a library function are reached by the Miri layer only (about 16 seed-runs in quick, 264 in thorough). The reference table is trusted because each call runs alone in a fresh process with fresh interpreters.",
+  level_text="Seeded layers: (a) Send+Sync compile probe; (b) call histories (calls as data over every public entry point and the raw interpreter methods, incl. injected client crashes - panicking Token/Iterator/Replace/BasicAnnotate/LangInterpreter callbacks - and abandoned lazy iterators) on long-lived interpreters, every result compared with a reference table in which each call ran alone in a pristine process; the whole corpus once as one forward history, once in reverse in another process, a soak (44 short calls x 66 000 repetitions) followed by a probe of the systematic families; every call also in two pristine processes under different locale / time zone / clock (LD_PRELOAD skew shim) / environment variables (H4), nested from caller callbacks (H5), from a destructor during unwinding (H6) and from a thread-local destructor during thread teardown (H7); (c) schedule simulation: 2-4 real caller threads under the harness's own deterministic scheduler (one runs at a time; PRNG-chosen switches at every caller callback and library yield point; uniform / sticky / PCT policies; explicit trace in the replay file) with the same oracle; (d) Miri as a second deterministic scheduler with basic-block preemption and data-race detection (slice in quick, sweep in thorough); (e) fd 1/2 captured for the whole run, and environment, live threads and panic hook compared before/after (E2). Sampling.",
+  note="The controlled scheduler switches only at callbacks and verif yield points (the library has no synchronisation of its own); interleavings inside a library function are reached by the Miri layer only (24 seed-runs in quick, 288 in thorough). The reference table is trusted because each call runs alone in a fresh process with fresh interpreters.",
   technique="deterministic simulation: harness-owned deterministic scheduler over real threads + seeded call histories with injected client crashes and abandonment, per-call pristine-process reference oracle, fd capture; Miri many-seeds as second deterministic scheduler",
   design="7 and 12.2"),
  "C15": dict(
-  level_text="Seeded simulation of the lazily pulled token stream: the simulator owns the source (EOF at an arbitrary instant, pull log), the tokens (hint flags) and the consumer (demand schedule, cancellation, polling past the end); oracles: lazy == batch, prefix-consistency under cancellation, fused end, pull-count bound (nothing before first request, never beyond the second number after the returned one), separation-hint == comma, nan-hint exclusion. Sampling.",
+  level_text="Seeded simulation of the lazily pulled token stream: the simulator owns the source (EOF at an arbitrary instant, pull log), the tokens (hint flags) and the consumer (demand schedule, cancellation, polling past the end); oracles O1-O8: lazy == batch, prefix-consistency under cancellation, fused end, pull-count bound (nothing before first request, never beyond the second number after the returned one; also for a for_each consumer and a source with an exact size_hint), separation-hint == comma and correct predecessor shown, nan-hint exclusion, nth/count adaptors agree. Sampling.",
   note="Hint flags are not placed on whitespace/'-' glue tokens; source is fused; a panic on both lazy and batch sides is counted and skipped (totality is C03, not claimed).",
   technique="deterministic simulation: simulator-owned token source/consumer with injected EOF, cancellation and hint faults; lazy-vs-batch equivalence, bounded look-ahead and hint-contract oracles over the recorded pull history; minimised replay files",
   design="5"),
